@@ -24,8 +24,9 @@ func (k msgServer) Cancel(goCtx context.Context, msg *types.MsgCancel) (*types.M
 	if order.Creator == msg.Creator {
 		isCreator = true
 	} else {
+		// only the gateway the order names can vouch for the creating address
 		node, found := k.node.GetNode(ctx, msg.Provider)
-		if found {
+		if found && msg.Provider == order.Provider {
 			for _, address := range node.TxAddresses {
 				if order.Creator == address {
 					isCreator = true
